@@ -136,10 +136,7 @@ class Gen:
         r = self.rng
         if r.random() > p:
             return None
-        pool = _DESCS
-        if self.c12:
-            pool = [d for d in _DESCS if all(ord(c) < 127 for c in d)]
-        text = r.choice(pool)
+        text = r.choice(_DESCS)
         return {"text": text, "block": ("\n" in text) or r.random() < 0.4}
 
     def wrap(self, name, allow_list=True, nonnull_p=0.3):
